@@ -2,3 +2,6 @@
 
 // no-op counterpart of the C02 hook called by `Batch::push` (suite c02_recorded is not part of this build)
 pub fn c02_note_push(_gate: &crate::protocol::Gate) {}
+
+// C16 (b21): stub of the validation counter hook called by `Batch::validate`.
+pub fn c16_note_validate(_gate: &crate::protocol::Gate, _batch_index: usize) {}
